@@ -185,6 +185,8 @@ def Skeleton.pinned : Skeleton where
   clFreeNeverWaits := true
   clStoresCreatedClosure := true
   clConvertsEveryArg := true
+  rwJudgesFieldSignatureOnly := true
+  hooksNeverWritten := true
   ioWrappersNonBlocking := true
   errBranchesHandled := true
   locksBalanced := true
